@@ -75,7 +75,7 @@ ZerosReq(L, n, gs0, v, k) == LET gs == IF IsZero(Below9(Clean(L, gs0))) THEN <<1
    texts |-> <<phrase, c[1] \o phrase \o c[2], num \o " " \o ZeroWord[L], ZeroWord[L]>>, thrs |-> <<"0">>, want |-> WantOr(<<"t2d", "rew">>)]
 \* C05: integer part, separator word, fraction; and the negative forms
 DigitStr(x, len) == [j \in 1..len |-> Ch("0123456789", ((LcgN(x, j) \div 32) % 10) + 1)]
-DecReq(L, n, gs0, d) == LET gs == Below9(Clean(L, gs0))  c == Ctx(L, n)  v == Variants(L)[1]
+DecReq(L, n, gs0, d) == LET gs == Below9(Clean(L, gs0))  c == Ctx(L, n)  v == Variants(L)[(n % Len(Variants(L))) + 1]     \* the integer part in every spelling variant
                             int == Cardinal(L, gs, v)  fr == Frac(L, d)  sep == SepWord[L]
                             phrase == int \o " " \o sep \o " " \o fr
                             one == DigitWords[L][6] IN
